@@ -266,3 +266,125 @@ Proof.
     apply hb_main; assumption.
 Qed.
 End HighBits.
+
+(** * Round-to-nearest-even after round-to-odd (over Z) *)
+Lemma land_1 x : Z.land x 1 = x mod 2.
+Proof. change 1 with (Z.ones 1) at 1. rewrite Z.land_ones by lia. reflexivity. Qed.
+
+Lemma lor_1 x : Z.lor x 1 = if Z.even x then x + 1 else x.
+Proof.
+  destruct (Z.even x) eqn:Ev.
+  - assert (Hl : Z.land x 1 = 0).
+    { rewrite land_1. apply Z.even_spec in Ev. destruct Ev as [m ->]. rewrite Z.mul_comm. apply Z.mod_mul. lia. }
+    rewrite <- Z.lxor_lor by exact Hl. symmetry. apply Z.add_nocarry_lxor. exact Hl.
+  - assert (Hodd : Z.odd x = true) by (rewrite <- Z.negb_even, Ev; reflexivity).
+    apply Z.odd_spec in Hodd. destruct Hodd as [m ->].
+    assert (Hl : Z.land (2 * m) 1 = 0) by (rewrite land_1, Z.mul_comm; apply Z.mod_mul; lia).
+    assert (H1 : Z.lor (2 * m) 1 = 2 * m + 1).
+    { rewrite <- Z.lxor_lor by exact Hl. symmetry. apply Z.add_nocarry_lxor. exact Hl. }
+    rewrite <- H1 at 1. rewrite <- Z.lor_assoc. change (Z.lor 1 1) with 1. exact H1.
+Qed.
+
+Lemma pow2_double k : 0 < k -> 2 ^ k = 2 * 2 ^ (k - 1).
+Proof. intros H. replace k with (1 + (k - 1)) at 1 by lia. rewrite Z.pow_add_r by lia. reflexivity. Qed.
+
+(** [rodd k n] as arithmetic: the top k bits T plus 1 when T is even and a lower bit is set *)
+Lemma rodd_decomp k n : 0 < k -> k < blen n ->
+  let E := blen n - k in
+  let T := n / 2 ^ E in
+  let s := n mod 2 ^ E in
+  rodd k n = T + (if Z.even T && negb (s =? 0) then 1 else 0) /\ 2 ^ (k - 1) <= T < 2 ^ k.
+Proof.
+  intros Hk Hb E T s.
+  assert (Hn : 0 < n) by (unfold blen in Hb; destruct (Z.leb_spec n 0); lia).
+  destruct (blen_bounds n Hn) as [_ [Hlo Hhi]].
+  assert (HE : 0 < E) by (unfold E; lia).
+  assert (H2E : 0 < 2 ^ E) by (apply Z.pow_pos_nonneg; lia).
+  assert (HT : 2 ^ (k - 1) <= T < 2 ^ k).
+  { replace (blen n - 1) with ((k - 1) + E) in Hlo by (unfold E; lia).
+    replace (blen n) with (k + E) in Hhi by (unfold E; lia).
+    rewrite Z.pow_add_r in Hlo, Hhi by lia. unfold T. split.
+    - apply Z.div_le_lower_bound; lia.
+    - apply Z.div_lt_upper_bound; lia. }
+  split; [|exact HT].
+  unfold rodd. replace (Z.max 0 (blen n - k)) with E by (unfold E; lia). fold T. fold s.
+  destruct (Z.eqb_spec s 0); cbn [negb].
+  - rewrite Z.lor_0_r, andb_false_r. lia.
+  - rewrite lor_1, andb_true_r. destruct (Z.even T); lia.
+Qed.
+
+Lemma blen_rodd k n : 0 < k -> k < blen n -> blen (rodd k n) = k.
+Proof.
+  intros Hk Hb. destruct (rodd_decomp k n Hk Hb) as [-> [Hlo Hhi]].
+  set (T := n / 2 ^ (blen n - k)) in *.
+  apply blen_unique; [exact Hk|].
+  destruct (Z.even T) eqn:Ev; cbn [andb]; [|lia].
+  destruct (negb _); [|lia].
+  apply Z.even_spec in Ev. destruct Ev as [m Hm]. rewrite (pow2_double k Hk) in *. lia.
+Qed.
+
+Lemma scale_lt X s a b : 0 < X -> 0 <= s < X -> (s + X * a < X * b <-> a < b).
+Proof. intros HX Hs. split; intros H; nia. Qed.
+Lemma scale_gt X s a b : 0 < X -> 0 <= s < X -> (X * b < s + X * a <-> b < a \/ (b = a /\ 0 < s)).
+Proof.
+  intros HX Hs. split; intros H.
+  - destruct (Z.lt_trichotomy b a) as [?|[?|?]]; [left; assumption|right; subst; lia|nia].
+  - destruct H as [H|[-> H]]; nia.
+Qed.
+
+(** rounding [n] to [p] bits to nearest-even = rounding its [k]-bit round-to-odd summary,
+    whenever k >= p + 2 (here k = 64, p = 53 or 24): same mantissa, exponent shifted by the
+    bits the summary dropped. *)
+Theorem rne_of_odd p k n : 0 < p -> p + 2 <= k -> k < blen n ->
+  rne p n = (fst (rne p (rodd k n)), snd (rne p (rodd k n)) + (blen n - k)).
+Proof.
+  intros Hp Hk Hb.
+  destruct (rodd_decomp k n ltac:(lia) Hb) as [HR HT].
+  pose proof (blen_rodd k n ltac:(lia) Hb) as HbR.
+  set (E := blen n - k) in *. set (T := n / 2 ^ E) in *. set (s := n mod 2 ^ E) in *.
+  set (dl := if Z.even T && negb (s =? 0) then 1 else 0) in *.
+  assert (HE : 0 < E) by (unfold E; lia).
+  set (e1 := k - p). assert (He1 : 2 <= e1) by (unfold e1; lia).
+  set (X := 2 ^ E). assert (HX : 0 < X) by (apply Z.pow_pos_nonneg; lia).
+  set (H' := 2 ^ (e1 - 2)). assert (HH : 0 < H') by (apply Z.pow_pos_nonneg; lia).
+  assert (HY : 2 ^ e1 = 4 * H').
+  { unfold H'. replace e1 with (2 + (e1 - 2)) at 1 by lia. rewrite Z.pow_add_r by lia. reflexivity. }
+  assert (Hs : 0 <= s < X) by (apply Z.mod_pos_bound; exact HX).
+  unfold rne. rewrite HbR.
+  replace (Z.max 0 (k - p)) with e1 by (unfold e1; lia).
+  replace (Z.max 0 (blen n - p)) with (E + e1) by (unfold E, e1; lia).
+  cbn [fst snd]. rewrite Z.pow_add_r by lia. fold X. rewrite HY, HR.
+  set (Y := 4 * H') in *.
+  set (q := T / Y). set (t := T mod Y).
+  assert (HTd : T = Y * q + t) by (apply Z.div_mod; lia).
+  assert (Ht : 0 <= t < Y) by (apply Z.mod_pos_bound; lia).
+  (* quotient and remainder of n *)
+  assert (Hq2 : n / (X * Y) = q) by (rewrite <- Z.div_div by lia; reflexivity).
+  assert (Hr2 : n mod (X * Y) = s + X * t) by (rewrite Z.rem_mul_r by lia; reflexivity).
+  rewrite Hq2, Hr2. clear Hq2 Hr2 HR HbR HT.
+  clearbody q t X H' T s.
+  (* parity *)
+  assert (Hpar : exists m b, T = 2 * m + b /\ (b = 0 \/ b = 1) /\
+                 dl = (if (b =? 0) && negb (s =? 0) then 1 else 0)).
+  { unfold dl. destruct (Z.even T) eqn:Ev.
+    - apply Z.even_spec in Ev. destruct Ev as [m Hm]. exists m, 0. split; [lia|split; [auto|reflexivity]].
+    - assert (Hodd : Z.odd T = true) by (rewrite <- Z.negb_even, Ev; reflexivity).
+      apply Z.odd_spec in Hodd. destruct Hodd as [m Hm]. exists m, 1. split; [lia|split; [auto|reflexivity]]. }
+  destruct Hpar as (m & b & HTm & Hb01 & Hdl). clearbody dl.
+  assert (Hdl01 : dl = 0 \/ dl = 1) by (rewrite Hdl; destruct ((b =? 0) && negb (s =? 0)); auto).
+  assert (Htd : 0 <= t + dl < Y).
+  { destruct Hdl01 as [->| Hd1]; [lia|]. rewrite Hd1.
+    rewrite Hd1 in Hdl. destruct (Z.eqb_spec b 0); cbn [andb] in Hdl; [|discriminate]. unfold Y in *. lia. }
+  assert (Hq1 : (T + dl) / Y = q) by (symmetry; apply (Z.div_unique _ _ _ (t + dl)); [left; exact Htd|lia]).
+  assert (Hr1 : (T + dl) mod Y = t + dl) by (symmetry; apply (Z.mod_unique _ _ q); [left; exact Htd|lia]).
+  rewrite Hq1, Hr1.
+  pose proof (scale_lt X s t (2 * H') HX Hs) as Hlt.
+  pose proof (scale_gt X s t (2 * H') HX Hs) as Hgt.
+  assert (Hc1 : (2 * (t + dl) <? Y) = (2 * (s + X * t) <? X * Y)).
+  { unfold Y in *. destruct (Z.eqb_spec b 0); destruct (Z.eqb_spec s 0); cbn [andb negb] in Hdl; subst dl;
+      leb_cases; try reflexivity; exfalso; lia. }
+  assert (Hc2 : (Y <? 2 * (t + dl)) = (X * Y <? 2 * (s + X * t))).
+  { unfold Y in *. destruct (Z.eqb_spec b 0); destruct (Z.eqb_spec s 0); cbn [andb negb] in Hdl; subst dl;
+      leb_cases; try reflexivity; exfalso; lia. }
+  rewrite Hc1, Hc2. f_equal. lia.
+Qed.
